@@ -167,6 +167,13 @@ func (fc *FnCtx) execInstr(s *State, fn *ssa.Function, in ssa.Instruction) {
 	case *ssa.DebugRef:
 	case *ssa.Alloc:
 		et := x.Type().Underlying().(*types.Pointer).Elem()
+		if at, ok := et.Underlying().(*types.Array); ok {
+			// new([N]T): a fresh zeroed array; the pointer is modelled as the full slice over it
+			arr := fc.allocArray(s)
+			n := mkI(at.Len())
+			s.regs[x] = sliceVal(arr, mkI(0), n, n, types.NewSlice(at.Elem()))
+			return
+		}
 		if st, sname, ok := structOf(et); ok && !isValueStruct(sname) {
 			// struct objects live on the heap at a fresh address
 			a := fc.newObject(s, sname, st, x.Comment)
